@@ -250,7 +250,9 @@ class KeyboardMatrix:
 
     def release_key(self, key_code: str) -> None:
         state = self._key_states.get(key_code)
-        if not state:
+        if not state or not state.pressed:
+            # Releasing a key that is not down is a no-op; in particular it must not
+            # restart the release debounce of a key that is already on its way up.
             return
         state.pressed = False
         state.release_ticks = 0
